@@ -94,6 +94,7 @@ Z4 == A("v4", <<0, 1, 0, 0>>)     \* = Anon(T4): a host whose own low bits are 0
 T6 == A("v6", <<0, 1, 1, 0>>)
 S6 == A("v6", <<0, 1, 0, 1>>)
 M4 == A("m4", <<0, 1, 1, 0>>)     \* T4 in IPv4-mapped form
+L6 == A("z6", <<0, 1, 1, 0>>)     \* link-local IPv6 address with a zone
 X4 == A("v4", <<1, 1, 0, 1>>)     \* carrier address of the ClientID clients
 
 \* The querying principals.  qt = question type in rounds 1, 2, 3: the type is
@@ -112,7 +113,8 @@ Senders == <<
     \* The same unconfigured ClientID as C2, but from the target client's
     \* address: a ClientID that is no persistent client does not stop the sender
     \* from being the client its address says it is.
-    [cl |-> "C3", addr |-> T4, cid |-> "cliz2", qt |-> <<"HIP", "NID", "L32">>] >>
+    [cl |-> "C3", addr |-> T4, cid |-> "cliz2", qt |-> <<"HIP", "NID", "L32">>],
+    [cl |-> "L6", addr |-> L6, cid |-> "",      qt |-> <<"RT", "X25", "ISDN">>] >>
 
 \* A query is identified by <<name index, sender index, round>>; round 4 is
 \* the ANY probe, sent by T4 together with round 1.
@@ -127,6 +129,8 @@ KOfRound(r) == IF r = 4 THEN 0 ELSE r - 1
 
 ClientVariants ==
     { [kind |-> "ip", addr |-> T4], [kind |-> "ip", addr |-> Z4], [kind |-> "ip", addr |-> T6],
+      \* identified by the zoned / the IPv4-mapped spelling of an address
+      [kind |-> "ip", addr |-> L6], [kind |-> "ip", addr |-> M4],
       [kind |-> "cidr", fam |-> "v4", bits |-> <<0, 1>>],
       [kind |-> "cidr", fam |-> "v4", bits |-> <<0, 1, 1>>],
       [kind |-> "cidr", fam |-> "v6", bits |-> <<0, 1, 1>>],
